@@ -243,7 +243,7 @@ PROPS["C02"] = {
     "level_text": "Encoding: Message::as_bytes of whole messages (12 message shapes + every numeric and bool argument layout as the single argument of a message) and every writer unit (storage / standard / extended header, each argument layout in both byte orders, payload kinds) are compared byte for byte with an independently written reference encoder for all field values. Decoding: header parsers on fully symbolic bytes (all 256 HTYP, all 256 MSIN, arbitrary id bytes, symbolic available length) against the reference decoder; message / filtered / incomplete / reject verdict and consumed length per shape and declared-length class (C04's harnesses carry the reference verdict); all 2^32 type-info words in C14.",
     "level_note": "Agreement on arbitrary byte strings is decided per unit and per shape, not for whole messages with symbolic control (that does not finish). The crate's canonical bool type info has TYLE=0 (TYLE=1..15 accepted on decode).",
     "functions": ['StorageHeader::as_bytes', 'StandardHeader::as_bytes', 'ExtendedHeader::as_bytes', 'Argument::as_bytes::<BE|LE>', 'Argument::len', 'PayloadContent::as_bytes', 'TypeInfo::as_bytes', 'parse::dlt_standard_header', 'parse::dlt_extended_header', 'parse::dlt_storage_header'],
-    "bounds": 'header units: 16 / 12 / 18 symbolic bytes; argument layouts of the catalogue (80 shapes); payloads <= 3 slices / 2 arguments',
+    "bounds": 'header units: 16 / 12 / 18 symbolic bytes; argument layouts of the catalogue (80 shapes); payloads of <= 3 slices or one argument in the writer direction (the concatenation of two arguments, c02w_payload_verbose_concat, did not finish: 27 GB after 44 min)',
     "outside": 'whole-message writer for string arguments and for two or more arguments / slices (units only: the string writer sizes its buffer from a length inside an enum, which makes the allocation size symbolic; two-slice payloads give a CBMC counterexample that does not reproduce natively)',
     "assumptions": COMMON_ASSUME + ['std::fmt::format stubbed (messages not compared)', 'core::str::from_utf8 replaced by a byte-wise model checked against std (c19_utf8_model_vs_std)', 'forward_to_next_storage_header replaced by its specification (first occurrence) in whole-message storage-mode harnesses; the real function is checked against that specification in C06', 'ids, names, units and string contents are literals in whole-message harnesses (whether a byte is NUL is control for the parser); arbitrary contents are decided in C19 / c02d'],
     "trusted_base": ['reference encoder / decoder in kani/src (refcodec.rs, shapes.rs, c02d.rs)'],
